@@ -332,6 +332,10 @@ class Engine:
         self.types = typedb
         self.overflow_checks = overflow_checks
         self.stubs = {}                   # exact callee text or normalised name -> fn(engine, args, frame, callee)
+        # process-wide state (statics, thread-locals): name -> value; reset at the start of every path, so what one call leaves behind is
+        # seen by the next call executed on the SAME path. global_presets: name -> fn(engine) -> initial value (instead of the initializer)
+        self.gframe = Frame(None, 0)
+        self.global_presets = {}
         self.stub_patterns = []           # (compiled regex on the normalised callee, fn(engine, args, frame, match)): per-check stubs
         self.contracts = []               # [(compiled regex on the normalised callee, handler)]
         self.solver = z3.Solver()
@@ -381,6 +385,7 @@ class Engine:
             self.trace, self.pos, self.pc, self.choices, self.pending = trace, 0, [], {}, []
             self.fresh_counter, self.steps, self.notes = 0, 0, []
             self.extra = {}
+            self.gframe.env = {}
             self.solver.reset()
             self.solver.set('timeout', self.timeout_ms)
             if self.base_constraints:
@@ -664,7 +669,34 @@ class Engine:
             return self._promoted(frame, c[1])
         if ck == 'item':
             return self._const_item(frame, c[1])
+        if ck == 'alloc':
+            return self.static_ref(c[1])
         raise Unsupported('constant %r' % (c,))
+
+    def static_ref(self, alloc):
+        """reference to the cell of the static behind `{allocN: &T}`; the cell is created on first use from the static's initializer"""
+        tab = self.program.get('__allocs__')
+        name = tab[0].locals.get(alloc) if tab else None
+        if name is None:
+            raise Unsupported('address of %s (not a static of this crate)' % alloc)
+        return self.global_cell(name)
+
+    def global_cell(self, name, init=None):
+        env = self.gframe.env
+        if name not in env:
+            if name in self.global_presets:
+                env[name] = self.global_presets[name](self)
+            elif init is not None:
+                env[name] = init()
+            else:
+                cands = [n for n in self.program if (n == name or n.endswith('::' + name)) and self.program[n][0].kind == 'static']
+                if len(cands) != 1:
+                    raise Unsupported('initializer of static %s (%d candidates)' % (name, len(cands)))
+                env[name] = self.call_mir(self.func(cands[0]), [], 1)
+            self.extra.setdefault('globals_touched', [])
+            if name not in self.extra['globals_touched']:
+                self.extra['globals_touched'].append(name)
+        return Ref(self.gframe, name, ())
 
     def _promoted(self, frame, name):
         cands = [n for n in self.program if n == name]
@@ -679,6 +711,8 @@ class Engine:
         return self.call_mir(self.func(cands[0]), [], frame.depth + 1)
 
     def _const_item(self, frame, text):
+        if re.search(r'::\{constant#\d+\}$', text):
+            return FnItem(text)            # the accessor of a thread-local key: never called, the LocalKey contract identifies the key
         if text.startswith('ZeroSized: '):
             ty = text[len('ZeroSized: '):]
             if ty.startswith('{closure@'):
@@ -693,7 +727,7 @@ class Engine:
         if len(cands) == 1:
             return self.call_mir(self.func(cands[0]), [], frame.depth + 1)
         t = norm_type(text)
-        m = re.match(r'^(u8|u16|u32|u64|usize|i8|i16|i32|i64|isize)::(MAX|MIN)$', t)
+        m = re.match(r'^(?:<impl )?(u8|u16|u32|u64|u128|usize|i8|i16|i32|i64|i128|isize)>?::(MAX|MIN)$', t)
         if m:
             w, s = INT_TYPES[m.group(1)]
             if m.group(2) == 'MAX':
@@ -790,6 +824,9 @@ class Engine:
                 [self.operand(frame, f) for f in rv[3]]
             v = self._adt_from_path(rv[1], rv[2], fields)
             if v is None:
+                segs = strip_generics(norm_type(rv[1])).split('::')
+                if not fields and len(segs) >= 2 and segs[-2] == 'Ordering' and segs[-1] in ('Relaxed', 'Release', 'Acquire', 'AcqRel', 'SeqCst'):
+                    return Adt('AtomicOrdering', segs[-1], ())
                 raise Unsupported('aggregate %s' % rv[1])
             return v
         if k == 'tuple':
